@@ -579,4 +579,60 @@ def r05_6(ctx):
         ctx.ob("R05.6", name, ok, pf.loc(), "; ".join(detail))
 
 
-RULES = [("R05.1", r05_1), ("R05.2", r05_2), ("R05.3", r05_3), ("R05.4", r05_4), ("R05.5", r05_5), ("R05.6", r05_6), ("R05.7", r05_7), ("R05.8", r05_8), ("R05.9", r05_9)]
+END_SHAPE = {
+    # trait of the `end` method -> (closer that depends on the Empty state, closers of the enclosing variant object written unconditionally)
+    "SerializeSeq": ("end_array", 0),
+    "SerializeMap": ("end_object", 0),
+    "SerializeTupleVariant": ("end_array", 1),
+    "SerializeStructVariant": ("end_object", 1),
+}
+
+
+def r05_10(ctx):
+    """brackets are balanced: serialize_seq / serialize_map already write the closing bracket of an empty container and
+    record State::Empty, so every `end` of the compound serializer writes the container's closing bracket only on the
+    non-Empty edge of a test of that state; the closing brace of an enum-variant wrapper is the only unconditional one"""
+    prog = ctx.prog()
+    n = 0
+    for f in prog.fns.values():
+        if f.crate != "sonic_rs" or f.name != "end" or not (f.self_adt or "").endswith("serde::ser::Compound"):
+            continue
+        tr = (f.trait or "").rsplit("::", 1)[-1]
+        closers = [(b, t) for b, t in f.calls() if t["callee"].rsplit("::", 1)[-1] in ("end_array", "end_object")]
+        if not closers:
+            continue  # delegates to a sibling
+        n += 1
+        if tr not in END_SHAPE:
+            ctx.ob("R05.10", f"end:{tr}", False, f.loc(), f"{tr}::end writes closing brackets but is not one of the audited shapes")
+            continue
+        want_kind, want_uncond = END_SHAPE[tr]
+        # switches on the State of the compound
+        state_sw = []
+        for b, t in f.terms():
+            if t["k"] != "switch":
+                continue
+            dl = op_local(t["discr"])
+            d = f.single_def(dl) if dl is not None else None
+            if d and d[0] == "stmt" and d[3]["rv"]["k"] == "discr":
+                pl = d[3]["rv"]["p"]
+                names = [e[2] for e in pl[1] if isinstance(e, list) and e[0] == "."]
+                tyok = "ser::State" in f.locals[pl[0]]["ty"] or (names and names[-1] == "state")
+                if tyok:
+                    state_sw.append((b, t))
+        guarded, uncond = [], []
+        for cb, ct in closers:
+            g = False
+            for sb, st in state_sw:
+                tg = [x for v, x in st["targets"]] + [st["otherwise"]]
+                can = [x for x in tg if x == cb or cb in f.reachable_from(x)]
+                if f.dominates(sb, cb) and 0 < len(set(can)) < len(set(tg)):
+                    g = True
+            (guarded if g else uncond).append(ct["callee"].rsplit("::", 1)[-1])
+        ok = guarded.count(want_kind) == 1 and len(guarded) == 1 and len(uncond) == want_uncond and all(x == "end_object" for x in uncond)
+        ctx.ob("R05.10", f"end:{tr}", ok, f.loc(),
+               f"{tr}::end writes {guarded} only when the container was not already closed as empty and {uncond or 'nothing'} unconditionally" if ok else
+               f"{tr}::end writes {guarded} under the Empty-state test and {uncond} unconditionally (expected: {want_kind} under the test, {want_uncond} unconditional end_object): an empty container is closed twice")
+    ctx.floor("R05.10", "`end` methods of the compound serializer that write closing brackets", n, 4)
+
+
+RULES = [("R05.1", r05_1), ("R05.2", r05_2), ("R05.3", r05_3), ("R05.4", r05_4), ("R05.5", r05_5), ("R05.6", r05_6), ("R05.7", r05_7), ("R05.8", r05_8), ("R05.9", r05_9), ("R05.10", r05_10)]
